@@ -49,7 +49,7 @@ RULE = ('cases = (a) exhaustive block: one (high in 1..6, master seed) pair with
         "ComputationContext's cache and through tools.prepare_seed; distinct = hash of the case; non-trivial = some sequence has a "
         'non-monotone step or a repeated index, or the draw stream of (seed, high) collides before the largest requested index is served')
 ASSUMPTIONS = ['master seeds are ints in [0, 2**32) (what numpy RandomState accepts); one cache is only ever used with one (seed, high)',
-               'rejection = any exception raised by the call; a call exceeding the draw budget (more than 10000 + 400*(min(index, 5000)+1) draws) counts as not returning',
+               'rejection = any exception raised by the call; a call exceeding the draw budget (more than 10000 + 400*(min(index, 5000)+1) draws; 20000 for an index that must be refused) counts as not returning',
                'collision counter is computed by the harness from numpy RandomState(seed).randint(high, dtype=uint32) (coverage only, not an oracle)']
 CONFIG = {
     'quick': {'shards': 16, 'cases': 40, 'timeout': 600, 'floor': 300, 'exh_seeds': 64},
@@ -201,8 +201,11 @@ def _call(gs, seed, index, high, cache=None, use_cache=False):
         _Budget.left = None
 
 
+REJECT_BUDGET = 20000     # draws allowed to a call that has to refuse its index
+
+
 def _expect_reject(ctx, gs, mon, seed, index, high, cache=None, use_cache=False):
-    _Budget.left = _budget(index)
+    _Budget.left = REJECT_BUDGET
     kw = {}
     if high is not None:
         kw['high'] = high
@@ -218,7 +221,7 @@ def _expect_reject(ctx, gs, mon, seed, index, high, cache=None, use_cache=False)
                         {'seed': seed, 'index': index, 'high': eff, 'cached': use_cache, 'history': mon.tag})
     except DrawBudgetExceeded:
         raise Violation('not-rejected', '%s not rejected: get_sub_seed(%d, %d, high=%d) kept drawing (more than %d draws) instead of raising' % (
-            what, seed, index, eff, _budget(index)), {'seed': seed, 'index': index, 'high': eff, 'cached': use_cache, 'history': mon.tag})
+            what, seed, index, eff, REJECT_BUDGET), {'seed': seed, 'index': index, 'high': eff, 'cached': use_cache, 'history': mon.tag})
     except Exception:
         ctx.event('rejections_observed')
         if index < 0:
